@@ -55,13 +55,14 @@ def size_vectors(n, tier):
 class ComputeRun:
     """One symbolic execution of the real _compute on a rank-sorted game."""
 
-    def __init__(self, model, sizes, ranks, gamma_mode="default", tm_stub=True, order=None, identical=False):
+    def __init__(self, model, sizes, ranks, gamma_mode="default", tm_stub=True, order=None, identical=False, player_order=None):
         """sizes: team sizes by *original* team index (symbols mu_i_j / sg_i_j);
         order: the presentation handed to _compute lists original teams in this
         order (default 0..n-1); ranks: sorted dense ranks of the presentation;
         identical: every team carries team 0's symbols."""
         self.model, self.sizes, self.ranks, self.gamma_mode = model, tuple(sizes), ranks, gamma_mode
         self.order = list(order) if order is not None else list(range(len(sizes)))
+        self.player_order = dict(player_order or {})
         S = self.S = extract.Scratch(model)
         self.tm = game.stub_tm_real(S)
         game.stub_phi_real(S)
@@ -84,14 +85,20 @@ class ComputeRun:
             ctx.assume(term(params["kappa"]) <= 1)
             prior = [[(p.mu, p.sigma) for p in t] for t in teams]
             objs = [list(t) for t in teams]
-            present = [teams[k] for k in self.order]
+            present = [([teams[k][j] for j in self.player_order[k]] if k in self.player_order else teams[k]) for k in self.order]
             if gamma_mode == "custom":
                 code_g.teams = present
             out = call(m._compute, present, list(ranks) if ranks is not None else None)
-            if out[0] == "return" and self.order != list(range(len(sizes))):
+            if out[0] == "return" and (self.order != list(range(len(sizes))) or self.player_order):
                 back = [None] * len(sizes)
                 for pos, k in enumerate(self.order):
-                    back[k] = out[1][pos]
+                    row = list(out[1][pos])
+                    if k in self.player_order:
+                        inv = [None] * len(row)
+                        for jj, j in enumerate(self.player_order[k]):
+                            inv[j] = row[jj]
+                        row = inv
+                    back[k] = row
                 out = ("return", back)
             box.update(m=m, params=params, prior=prior, objs=objs, out=out)
         recs = explore(self.ctx, run)
@@ -225,6 +232,14 @@ class CodeWorld:
     def __init__(self, model, sizes, identical=False):
         self.model, self.sizes, self.identical = model, tuple(sizes), identical
         self.runs = []
+
+    def presentation(self, order, dense_ranks, player_order=None):
+        """the real _compute on an explicit presentation (order of original teams, sorted dense ranks)"""
+        run = ComputeRun(self.model, self.sizes, list(dense_ranks), "default", order=order, identical=self.identical, player_order=player_order)
+        if not run.ok():
+            raise EngineError(f"_compute raised {run.out[1]!r}")
+        self.runs.append(run)
+        return run
 
     def outcome(self, ranks_by_team):
         """ranks_by_team[i] = rank value of original team i (ties allowed).
